@@ -167,25 +167,6 @@ class Let:
 class Match:
   def __init__(self, scrut, arms): self.scrut, self.arms = scrut, arms
 
-def pp(n, ind):
-  sp = ' ' * ind
-  if isinstance(n, Leaf): return sp + n.text
-  if isinstance(n, If):
-    if isinstance(n.then, Leaf):
-      return f'{sp}if {n.cond} then {n.then.text} else\n{pp(n.els, ind)}'
-    return f'{sp}if {n.cond} then (\n{pp(n.then, ind + 2)}\n{sp}) else\n{pp(n.els, ind)}'
-  if isinstance(n, Let):
-    if isinstance(n.val, str):
-      return f'{sp}let {n.name} : {n.ty} := {n.val}\n{pp(n.body, ind)}'
-    return f'{sp}let {n.name} : {n.ty} := (\n{pp(n.val, ind + 2)}\n{sp})\n{pp(n.body, ind)}'
-  if isinstance(n, Match):
-    out = [f'{sp}match {n.scrut} with']
-    for pat, body in n.arms:
-      if isinstance(body, Leaf): out.append(f'{sp}| {pat} => {body.text}')
-      else: out.append(f'{sp}| {pat} => (\n{pp(body, ind + 2)}\n{sp})')
-    return '\n'.join(out)
-  raise TypeError(n)
-
 def lname(py):
   s = re.sub(r'[^A-Za-z0-9_]', '_', py)
   return s + '_' if s in LEAN_RESERVED else s
@@ -309,11 +290,6 @@ class Translator:
   def int_lit(c): return f'({c})' if c < 0 else str(c)
 
   # ------------------------------------------------------------------------------------------ definitions
-  def spec_by_lean(self, lean):
-    for s in SPECS:
-      if s[0] == lean: return s
-    raise KeyError(lean)
-
   def fdef_of(self, spec):
     _, module, py, _, _ = spec
     d = self.methods.get(py) if module == 'bits' else self.funcs['helpers'].get(py)
@@ -342,6 +318,7 @@ class Translator:
     lean, module, py, params, result = spec
     fdef = self.fdef_of(spec)
     self.fn = fn = FnCtx(spec)
+    if fdef.decorator_list: raise self.unt(fdef, 'decorated function')
     self.pre = []
     a = fdef.args
     if a.posonlyargs or a.kwarg or (a.kwonlyargs and module != 'bits'):
@@ -637,16 +614,14 @@ class Translator:
     init = '(' + ', '.join(env.vars[n].lean for n in names) + ')'
     ty = tuple_ty(k)
     fun = LetFun(f'fun (st : {ty}) ({xv} : B) =>', body)
-    e3 = env
     def after(i, e2):
       if i == k: return cont(e2)
       L = lname(names[i])
       return Let(L, 'Int', tuple_proj('st', i, k), after(i + 1, e2.set(names[i], V('int', L))))
-    return Let('st', ty, Fold('List.foldl', fun, f'{init} {it.lean}'), after(0, e3))
+    return Let('st', ty, Fold('List.foldl', fun, f'{init} {it.lean}'), after(0, env))
 
   def while_loop(self, s, env, cont):
     if s.orelse: raise self.unt(s, 'while/else')
-    if env.handlers and not all(h.only_attribute_error() for h in env.handlers): pass
     names = self.loop_state(s, env)
     k = len(names); ty = tuple_ty(k)
     self.fn.has_while = True
@@ -816,8 +791,9 @@ class Translator:
     for operand in n.values:
       mark = len(self.pre)
       v = self.expr(operand, env)
-      if v.kind not in ('prop', 'bool', 'int'):
-        raise self.unt(operand, f'and/or operand is a {v.kind}')   # the value of and/or is used as a truth value only
+      if v.kind not in ('prop', 'bool'):
+        # `a or b` returns one of its operands: only for bool operands is that the truth value
+        raise self.unt(operand, f'and/or operand is a {v.kind} (only bool operands are supported)')
       new = self.pre[mark:]
       if new and props:
         prefix = ' ∧ '.join((f'(¬ {p})' if is_or else p) for p in props)
@@ -1006,6 +982,7 @@ class Translator:
     if recv.kind != 'obj': raise self.unt(n, f'method {name} of a {recv.kind}')
     fdef = self.methods.get(name)
     if fdef is None: raise self.unt(n, f'Bits has no method {name}')
+    if fdef.decorator_list: raise self.unt(fdef, 'call of a decorated method')
     body = self.strip_doc(fdef.body)
     if len(body) == 1 and isinstance(body[0], ast.Return):
       r = self.inline(fdef, [recv] + pos, kw, n, env)
@@ -1078,7 +1055,6 @@ class Translator:
       except Untranslatable as e:
         self.failures.append((spec[0], str(e)))
     body = []
-    done = set(self.order)
     for lean in self.order:
       body.append(self.finish_text(lean))
     for name, msg in self.failures:
@@ -1098,7 +1074,7 @@ class Translator:
     text = re.sub(r'⟪([^⟫]*)⟫', fix, text)
     return text.replace('__FUEL__', '')
 
-# Lean output nodes for loops (printed by pp through Let.val)
+# Lean output nodes for loops
 class LetFun:
   def __init__(self, head, body): self.head, self.body = head, body
 class Fold:
@@ -1106,18 +1082,19 @@ class Fold:
 class Fold2:
   def __init__(self, fn, f1, f2, tail): self.fn, self.f1, self.f2, self.tail = fn, f1, f2, tail
 
-_pp0 = pp
-def pp(n, ind):      # noqa: F811  (extends the printer above with the loop nodes)
+def pp(n, ind):
+  """print the output tree as Lean source; nested matches / non-leaf branches are parenthesised"""
   sp = ' ' * ind
+  def arms(alts):
+    out = []
+    for pat, body in alts:
+      if isinstance(body, Leaf): out.append(f'{sp}| {pat} => {body.text}')
+      else: out.append(f'{sp}| {pat} => (\n{pp(body, ind + 2)}\n{sp})')
+    return out
+  if isinstance(n, Leaf): return sp + n.text
   if isinstance(n, LetFun): return f'{sp}({n.head}\n{pp(n.body, ind + 2)})'
   if isinstance(n, Fold): return f'{sp}{n.fn}\n{pp(n.fun, ind + 2)}\n{sp}  {n.tail}'
   if isinstance(n, Fold2): return f'{sp}{n.fn}\n{pp(n.f1, ind + 2)}\n{pp(n.f2, ind + 2)}\n{sp}  {n.tail}'
-  if isinstance(n, Match) and not isinstance(n.scrut, str):
-    out = [f'{sp}match (\n{pp(n.scrut, ind + 2)}\n{sp}) with']
-    for pat, body in n.arms:
-      if isinstance(body, Leaf): out.append(f'{sp}| {pat} => {body.text}')
-      else: out.append(f'{sp}| {pat} => (\n{pp(body, ind + 2)}\n{sp})')
-    return '\n'.join(out)
   if isinstance(n, If):
     if isinstance(n.then, Leaf): return f'{sp}if {n.cond} then {n.then.text} else\n{pp(n.els, ind)}'
     return f'{sp}if {n.cond} then (\n{pp(n.then, ind + 2)}\n{sp}) else\n{pp(n.els, ind)}'
@@ -1125,12 +1102,10 @@ def pp(n, ind):      # noqa: F811  (extends the printer above with the loop node
     if isinstance(n.val, str): return f'{sp}let {n.name} : {n.ty} := {n.val}\n{pp(n.body, ind)}'
     return f'{sp}let {n.name} : {n.ty} := (\n{pp(n.val, ind + 2)}\n{sp})\n{pp(n.body, ind)}'
   if isinstance(n, Match):
-    out = [f'{sp}match {n.scrut} with']
-    for pat, body in n.arms:
-      if isinstance(body, Leaf): out.append(f'{sp}| {pat} => {body.text}')
-      else: out.append(f'{sp}| {pat} => (\n{pp(body, ind + 2)}\n{sp})')
-    return '\n'.join(out)
-  return _pp0(n, ind)
+    if isinstance(n.scrut, str): head = [f'{sp}match {n.scrut} with']
+    else: head = [f'{sp}match (\n{pp(n.scrut, ind + 2)}\n{sp}) with']
+    return '\n'.join(head + arms(n.arms))
+  raise TypeError(n)
 
 def generate(src_root):
   t = Translator(src_root)
@@ -1147,6 +1122,21 @@ def write_if_changed(path, text):
   with open(tmp, 'w') as f: f.write(text)
   os.replace(tmp, path)
   return True
+
+def pregen(src_root=None, out=DEFAULT_OUT):
+  """hook of harness/checks/c04.py and c05.py (`pregen(ck)`): regenerate Gen/BitsGen.lean from the pymtl3 source the
+  correspondence check executes; raises if some definition cannot be translated (-> broken obligation)"""
+  if src_root is None:
+    import pymtl3
+    src_root = os.path.dirname(os.path.dirname(os.path.abspath(pymtl3.__file__)))
+  text, failures = generate(src_root)
+  write_if_changed(out, text)
+  if failures:
+    raise RuntimeError('py2lean_bits could not translate ' + ', '.join(n for n, _ in failures) + ': ' +
+                       ' | '.join(m for _, m in failures))
+  ndefs = len(re.findall(r'^def ', text, re.M))
+  return [f'Gen/BitsGen.lean was regenerated before the build from {os.path.join(src_root, BITS_REL)} and '
+          f'{os.path.join(src_root, HELPERS_REL)} by tools/py2lean_bits.py ({ndefs} definitions)']
 
 def main():
   ap = argparse.ArgumentParser()
